@@ -328,6 +328,12 @@ def jobs(tier):
     return out
 
 
+
+# heavy shards are split into disjoint parts of their path tree (run in parallel; together exactly the unsplit exploration)
+def slices(job, tier):
+    h, a = job
+    return 4 if h == 'roundtrip' and a[0] * a[1] >= 6 and not (len(a) > 4 and a[4]) else 1
+
 OPTS = {'quick': {'time_budget': 80, 'timeout_ms': 30000}, 'thorough': {'time_budget': 1200, 'timeout_ms': 60000}}
 
 META = {
